@@ -617,7 +617,13 @@ func Exec(args []string, env *Env) int {
 				sig = syscall.SIGTERM
 			}
 			Emit(&Event{Ev: "end", ID: c.ID, Key: key, Pid: evPid(), Status: 128 + int(sig), Note: fail, Outs: outs})
-			syscall.Kill(os.Getppid(), sig)
+			// (a shell given a single simple command replaces itself by it: then this process *is* what the library
+			// started as the task's shell, and its parent is the workflow program)
+			target := os.Getppid()
+			if comm, err := os.ReadFile(fmt.Sprintf("/proc/%d/comm", target)); err != nil || (strings.TrimSpace(string(comm)) != "bash" && strings.TrimSpace(string(comm)) != "sh") {
+				target = os.Getpid()
+			}
+			syscall.Kill(target, sig)
 			time.Sleep(50 * time.Millisecond)
 			return 0
 		}
